@@ -28,11 +28,14 @@ CONSTANTS
   FailSaves = TRUE
   Focus = TRUE
   Record = FALSE
+  RM = FALSE
+  Slots = 1
+  RmUuids = {1, 2}
   Scrapes = FALSE
   Marking = FALSE
   WindAt = 0
   Gaps = {}
   Bugs = {"F1"}
 VIEW view
-INVARIANTS C16 C01 C02 C03 C04 C05 C06 C08 C11 C12 C13 C14 C15 StoreAgrees
+INVARIANTS C07 C16 C01 C02 C03 C04 C05 C06 C08 C11 C12 C13 C14 C15 StoreAgrees
 CHECK_DEADLOCK FALSE
